@@ -347,8 +347,11 @@ impl World {
                 if *i >= self.handles.len() {
                     return Ok(false);
                 }
+                // every other drop happens while a (caught) panic unwinds: an owner that dies
+                // that way releases its mapping like any other
+                let unwinding = (*i + self.handles.len() + self.insts.len()) % 2 == 1;
                 let h = self.handles.remove(*i);
-                drop(h);
+                drop_handle(h, unwinding);
             }
         }
         let _ = self.region_arc(0);
@@ -521,9 +524,9 @@ impl World {
 
     fn finish(mut self) -> Result<(), (String, String)> {
         // drop everything: nothing owned may stay mapped
-        while !self.handles.is_empty() {
-            let h = self.handles.pop();
-            drop(h);
+        while let Some(h) = self.handles.pop() {
+            let unwinding = (self.handles.len() + self.insts.len()) % 2 == 0;
+            drop_handle(h, unwinding);
         }
         let r = self.check();
         let tail = stop_recording();
@@ -536,6 +539,20 @@ impl World {
         }
         r
     }
+}
+
+/// Drops an owner, either normally or as a local of a frame that a panic unwinds (the panic is
+/// caught right away and printed nowhere).
+fn drop_handle(h: Handle, unwinding: bool) {
+    if !unwinding {
+        drop(h);
+        return;
+    }
+    struct Probe;
+    let _ = crate::crash::quiet_unwind(move || {
+        let _dies_while_unwinding = h;
+        std::panic::panic_any(Probe);
+    });
 }
 
 fn slots_of_start(start: u64) -> usize {
@@ -856,7 +873,7 @@ fn failed_creations(ctx: &Ctx) {
 
 pub fn run(tier: Tier, replay: Option<String>) -> i32 {
     let ctx = crate::new_ctx("C12", tier, "model_checking", &replay);
-    ctx.set_rule("E1: BFS over all histories up to the depth bound of {create region (owned anonymous / owned file-backed - through from_range, the builder with the hugetlbfs hint, or with the hint set afterwards, rotating with the slot - / external raw / external raw file-backed; Xen build: UNIX, grant in advance, foreign on the emulated devices), build a map from any subset of region handles, insert, remove (yields a removed-region handle), clone map, wrap in GuestMemoryAtomic, snapshot, clone handle, drop ANY live handle}; state = owner graph (which handle keeps which region alive), each frontier state is rebuilt by replaying its history on the real objects with mmap/munmap (and the grant ioctls) recorded through link-time interposition. After every step: a region with an owner has not been passed to munmap and is readable; a region whose last owner went away was munmap'ed exactly once with exactly its mapped length (grant: plus exactly one matching unmap ioctl); external mappings are never unmapped; at the end of every history all remaining handles are dropped and the same invariant is checked. Address-space accounting: the whole mapping log is replayed after every step; every page the library mapped while creating a region is attributed to it, all pages of a region with an owner must still be mapped, and none of the pages attributed to a region without owners may remain. Size sweep: the life cycle {create, build, clone, atomic, snapshot, optional remove} followed by the drop orders of the five owners for owned regions of 1 byte .. 32 MiB+1 (thorough: .. 1 GiB+1; page multiples and not, around the 2 MiB huge-page size), same invariants. Failed creations (std build): anonymous and file-backed regions and a two-region map created through four routes with exactly one mmap call failing, or one query of the file length failing or reporting an empty file: nothing the library mapped on the way may remain.");
+    ctx.set_rule("E1: BFS over all histories up to the depth bound of {create region (owned anonymous / owned file-backed - through from_range, the builder with the hugetlbfs hint, or with the hint set afterwards, rotating with the slot - / external raw / external raw file-backed; Xen build: UNIX, grant in advance, foreign on the emulated devices), build a map from any subset of region handles, insert, remove (yields a removed-region handle), clone map, wrap in GuestMemoryAtomic, snapshot, clone handle, drop ANY live handle (every other drop happens while a caught panic unwinds)}; state = owner graph (which handle keeps which region alive), each frontier state is rebuilt by replaying its history on the real objects with mmap/munmap (and the grant ioctls) recorded through link-time interposition. After every step: a region with an owner has not been passed to munmap and is readable; a region whose last owner went away was munmap'ed exactly once with exactly its mapped length (grant: plus exactly one matching unmap ioctl); external mappings are never unmapped; at the end of every history all remaining handles are dropped and the same invariant is checked. Address-space accounting: the whole mapping log is replayed after every step; every page the library mapped while creating a region is attributed to it, all pages of a region with an owner must still be mapped, and none of the pages attributed to a region without owners may remain. Size sweep: the life cycle {create, build, clone, atomic, snapshot, optional remove} followed by the drop orders of the five owners for owned regions of 1 byte .. 32 MiB+1 (thorough: .. 1 GiB+1; page multiples and not, around the 2 MiB huge-page size), same invariants. Failed creations (std build): anonymous and file-backed regions and a two-region map created through four routes with exactly one mmap call failing, or one query of the file length failing or reporting an empty file: nothing the library mapped on the way may remain.");
     ctx.assume("the 'programs' half of the property (accessors cannot outlive their parent) is decided by the compile-fail grid in tools/cfail.py and rests on Rust's borrow checker");
     if ctx.replay_of.is_some() {
         println!("replay: deterministic search; re-running it");
